@@ -171,9 +171,10 @@ SPECS_QUICK = [
     ("quad", "renum", "planestrain"), ("quad", "renum", "axi"), ("hexahedron", "strip", "vector"), ("triangle", "renum", "vector"),
     ("quad", "strip", "vector+uniform"), ("quad", "renum", "mixed3"), ("quad", "renum", "axi-mixed3"), ("quad", "renum", "ps-mixed3"),
     ("quad9", "ref", "mixed3"), ("triangle6", "ref", "mixed2"), ("quad", "renum", "vector+scalar"), ("tetra", "ref", "vector"),
+    ("hexahedron", "strip", "scalar"), ("tetra", "ref", "scalar"),
 ]
 SPECS_MORE = [
-    ("hexahedron", "strip", "mixed3"), ("hexahedron", "strip", "vector+uniform"), ("quad8", "ref", "vector"), ("hexahedron", "strip", "scalar"),
+    ("hexahedron", "strip", "mixed3"), ("hexahedron", "strip", "vector+uniform"), ("quad8", "ref", "vector"),
     ("quad", "block", "scalar+uniform"), ("tetra10", "ref", "scalar"), ("quad", "distorted", "axi"), ("triangle-mini", "ref", "mixed2"),
 ]
 
@@ -309,6 +310,12 @@ def run_linear(case):
             vals = form.integrate()
             got2 = form.assemble(values=vals).toarray()[:, 0]
             c.cmp(f"flags={flags}/present={pattern}/values", "assemble(values=integrate())", got2, ref, count=False)
+        # a scalar field with a gradient test space takes the flux integrand in both tensor orders, (1, J, q, c) and (J, q, c)
+        if nf == 1 and cont.fields[0].dim == 1 and flags[0] and fkind(cont.fields[0]) == "Field" and tsh[0][0] == 1:
+            for par in (False, True):
+                got = fem.IntegralForm([full[0][0]], cont, region.dV, **kw).assemble(parallel=par).toarray()[:, 0]
+                c.trans += 1
+                c.cmp(f"flags={flags}/flux-order-1/parallel={par}", "scalar field, gradient test space: flux integrand given as (J, q, c)", got, refs[0])
     return c.result(dict(case=case["key"], unknowns=N, quadrature_points=q, cells=nc))
 
 
